@@ -40,6 +40,16 @@ def generate(rng, tier):
                 shape = [n] + trailing
                 L = gen.lanes_of(shape)
                 xs = gen.axis_q(rng, n, rng.choice(["uniform", "geometric", "random", "dyadic", "mesh64", "mesh64", "evenish", "nearly_even", "indexlike"]))
+                if n >= 4 and rng.random() < 0.2:
+                    # strongly graded axes: every interval 3 .. 5 times the one before it, or the mirror image (seed C03-r11m1: a solve with
+                    # row swaps — partial pivoting — that goes wrong only when two consecutive steps swap)
+                    f_ = rng.choice([Fr(3), Fr(4), Fr(7, 2), Fr(5)])
+                    st_ = [f_ ** i for i in range(n - 1)]
+                    if rng.random() < 0.5:
+                        st_.reverse()
+                    xs = [Fr(rng.randint(-5, 5))]
+                    for s_ in st_:
+                        xs.append(xs[-1] + s_ * Fr(1, rng.choice([1, 2, 8])))
                 flat = gen.degenerate(rng, n, L, gen.vals_q(rng, n * L, rng.choice(["int", "dyadic", "rational"])))
                 if rng.random() < 0.2:
                     # very fine / very coarse axes (mean interval 2^-30 .. 2^-17 or 2^17 .. 2^30; exact at Q): prescribed second derivatives
